@@ -115,6 +115,16 @@ func yangTokens(s string) [][2]int {
 	return out
 }
 
+// c14Small are short modules dense in the constructs the lexer treats
+// specially: escapes in double-quoted strings, single quotes, concatenation,
+// comments of both kinds next to tokens, extension statements with arguments.
+var c14Small = []string{
+	"module e { namespace \"urn:e\"; prefix e; description \"a \\\"quoted\\\" back\\\\slash \\n newline \\t tab\"; leaf l { type string { pattern \"[a-z]\\\\d+\"; } default \"x\\\"y\"; } }",
+	"module f { namespace 'urn:f'; prefix f; /* block */ description 'single \\ quoted' + \" and \\\\ double\" + 'x'; // line comment\n leaf m { type string; } // last\n}",
+	"module g { namespace \"urn:g\"; prefix g; extension x { argument a; } g:x \"arg \\\" esc\"; g:x plain; g:x 12 { g:x 'q'; } leaf n { g:x \"y\\\\\"; type int32 { range \"1..10\"; } } }",
+	"module h{namespace \"urn:h\";prefix h;container c{leaf a{type string;}list l{key \"k\";leaf k{type string;}}}rpc r{input{leaf i{type string;}}}notification n{leaf v{type string;}}}",
+}
+
 var substPool = []string{"{", "}", ";", "\"", "'", "+", "module", "leaf", "type", "x", "uses", "grouping", "import", "/*", "//", "\"a", "1", ""}
 
 type c14Plan struct {
@@ -245,6 +255,20 @@ func c14Cases(r *kit.Rng, tier string) ([]*load.Case, map[string]string) {
 		c2.ID += "|perm"
 		c2.Order = load.OrderSpec{Mode: "perm", Seed: r.Uint64()}
 		add(&c2, "pathological")
+	}
+	// small escape- and comment-rich texts: every prefix and every token edit, in both tiers
+	for si, text := range c14Small {
+		id := fmt.Sprintf("small%d", si)
+		add(&load.Case{ID: id + "|whole", Main: text, Order: load.OrderSpec{Mode: "sorted"}}, "corpus-whole")
+		for k := 0; k < len(text); k++ {
+			add(&load.Case{ID: fmt.Sprintf("%s|prefix|%d", id, k), Main: text[:k], Order: load.OrderSpec{Mode: "sorted"}}, "prefix")
+		}
+		toks := yangTokens(text)
+		for ti, t := range toks {
+			add(&load.Case{ID: fmt.Sprintf("%s|tokdel|%d", id, ti), Main: text[:t[0]] + text[t[1]:], Order: load.OrderSpec{Mode: "sorted"}}, "token-delete")
+			add(&load.Case{ID: fmt.Sprintf("%s|tokdup|%d", id, ti), Main: text[:t[1]] + " " + text[t[0]:t[1]] + text[t[1]:], Order: load.OrderSpec{Mode: "sorted"}}, "token-duplicate")
+			add(&load.Case{ID: fmt.Sprintf("%s|toksub|%d", id, ti), Main: text[:t[0]] + substPool[(si+ti)%len(substPool)] + text[t[1]:], Order: load.OrderSpec{Mode: "sorted"}}, "token-substitute")
+		}
 	}
 	for _, f := range files {
 		id := relID(f.dir) + "/" + f.name
@@ -574,8 +598,18 @@ func c14Batch(c *Check, tier string) int {
 		fmt.Printf("VIOLATION property=C14 replay=%s\n  key=%s (seen %d times)\n  %s\n", path, k, h.n, v.Detail)
 		exit = 1
 	}
+	var fpLines []string
+	for i := range all {
+		fpLines = append(fpLines, all[i].ID+"|"+all[i].Kind+"|"+all[i].LogHash+"|"+fmt.Sprint(all[i].Steps)+"|"+all[i].Err)
+	}
+	sort.Strings(fpLines)
+	batch := kit.NewLog(0)
+	for _, l := range fpLines {
+		batch.Add("%s", l)
+	}
 	wall := time.Since(start).Seconds()
 	cov := map[string]interface{}{
+		"batch_fingerprint":   batch.HashHex(),
 		"evaluations":         len(all),
 		"distinct_nontrivial": len(prints),
 		"rule": "cases: every corpus .yang file of the repository loaded whole (by text and through the opener), prefixes (quick: at and around 10 sampled token boundaries + 6 random offsets per file; thorough: every byte offset), single-token deletions/duplications/substitutions (quick: 8 tokens per file; thorough: every token), opener faults per (resource, n-th open) derived from the fault-free open log (missing, open error, read error/EOF/corrupt byte/duplicated chunk at seeded offsets, short reads, (n,EOF), serving another module incl. the importer itself, torn/failing cache), hand-written pathological sets (import/include/grouping/typedef/identity/leafref cycles, nesting beyond the 256-entry stack, token runs beyond the 64-token ring), generated two-module sets; map order permuted per case. " +
